@@ -58,6 +58,7 @@ type FuncVC struct {
 	aborted   string
 	entryVars map[string]any
 	compose   string
+	lemmaClauses map[string][]string
 	composeArgs map[string]V
 	deferredReq []*Clause
 }
